@@ -376,7 +376,9 @@ def judgeInput (id : String) (fs0 : List String) (outs : List String) : String :
           if !modelBad.isEmpty then disagree id ("; ".intercalate modelBad) "fields"
           else match helperModelVerdict op _headers _target with
             | some (.error e) => disagree id s!"helper model refuses: {repr e}" "implementation accepts"
-            | _ => agree id ("op:" ++ opn)
+            -- a case that sent a value for the payload member (XML document, text, stream) and saw it arrive is counted
+            -- per operation under its own class, so that the evidence shows which operations had their body compared
+            | _ => agree id ((if sent.any (fun s => s.loc == "payload") then "payload:" else "op:") ++ opn)
   | _, _ => badline id
 
 /-! ## svcauth (C07) -/
